@@ -116,6 +116,7 @@ def check_train(case):
   grads = (2.0 * y - 1.0)[:, None] * x
   delta, lr = case["delta"], case["lr"]
   iterates = [np.zeros(n)]
+  scales = [1e-300]
   w = np.zeros(n)
   diag_h = np.full(n, delta)
   cov = delta * np.eye(n)
@@ -128,11 +129,12 @@ def check_train(case):
     else:
       cov = cov + np.outer(g, g)
       w = w - lr * _psd_power(cov, -0.5) @ g
+    scales.append(scales[-1] + float(np.max(np.abs(w - iterates[-1]), initial=0.0)))
     iterates.append(w.copy())
   losses = np.concatenate([[0.0], np.cumsum([float(np.dot(iterates[t], grads[t])) for t in range(rows)])])
   for j, k in enumerate(obs):
     require(int(N[j]) == int(k), "train-row-counter", f"observation {j}: n = {int(N[j])}, expected {int(k)}")
-    tol = 1e-6 * max(float(np.max(np.abs(iterates[k]))), 1e-12)
+    tol = 1e-6 * max(scales[k], 1e-12)
     require(bool(np.all(np.abs(W[j] - iterates[k]) <= tol)), f"train-{case['alg'].lower()}-iterates",
             f"after {int(k)} rows (observation {j} of {len(obs)}): |w - closed form| = "
             f"{np.max(np.abs(W[j] - iterates[k])):.3g}")
@@ -209,6 +211,7 @@ def check(case):
   hist = history(case)
   state = init()
   w_ref = np.zeros(n)              # closed-form iterate
+  w_scale = 1e-300                 # cumulative magnitude of the increments (the iterate itself may cancel)
   diag_h = np.full(n, delta)
   cov = np.zeros((n, n))           # exact sum of (scaled) gradient outer products
   cov_raw = np.zeros((n, n))
@@ -224,14 +227,17 @@ def check(case):
     w = cur["w"].ravel()
     if alg == "OGD":
       w_ref = w_ref - lr * g / np.sqrt(t + delta)
-      tol = 1e-9 * max(np.max(np.abs(w_ref)), 1e-300)
+      w_scale += float(np.max(np.abs(lr * g / np.sqrt(t + delta)), initial=0.0))
+      tol = 1e-9 * w_scale
       require(float(cur["t"]) == float(t), "ogd-t", f"t={float(cur['t'])} after {t} steps")
       require(bool(np.all(np.abs(w - w_ref) <= tol)), "ogd-closed-form",
               f"step {t}: |w - closed form| = {np.max(np.abs(w - w_ref)):.3g}")
     elif alg == "ADA":
       diag_h = diag_h + g * g
-      w_ref = w_ref - lr * g / np.sqrt(np.where(diag_h == 0, 1.0, diag_h))
-      tol = 1e-9 * max(np.max(np.abs(w_ref)), 1e-300)
+      inc = lr * g / np.sqrt(np.where(diag_h == 0, 1.0, diag_h))
+      w_ref = w_ref - inc
+      w_scale += float(np.max(np.abs(inc), initial=0.0))
+      tol = 1e-9 * w_scale
       require(bool(np.all(np.abs(cur["diag_h"].ravel() - diag_h) <= 1e-12 * np.maximum(diag_h, 1e-300))),
               "ada-accumulator", f"step {t}")
       require(bool(np.all(np.abs(w - w_ref) <= tol)), "ada-closed-form",
@@ -319,9 +325,11 @@ def check(case):
         cov_raw = cov_raw + np.outer(g, g)
         require(rho2 <= 1e-18 * scale + 1e-300, "lossless-no-escape",
                 f"step {t}: rho^2 = {rho2:.3g} for a history of rank < sketch size")
-        w_ref = w_ref - lr * _psd_power(delta * np.eye(n) + cov_raw, -0.5) @ g
+        inc = lr * _psd_power(delta * np.eye(n) + cov_raw, -0.5) @ g
+        w_ref = w_ref - inc
+        w_scale += float(np.max(np.abs(inc), initial=0.0))
         if (delta + np.linalg.eigvalsh(cov_raw)[-1]) / delta < 1e10:
-          tol = 1e-6 * max(float(np.max(np.abs(w_ref))), 1e-300)
+          tol = 1e-6 * w_scale
           require(bool(np.all(np.abs(w - w_ref) <= tol)), "sada-equals-full-matrix-adagrad",
                   f"step {t}: |w - full-matrix AdaGrad| = {np.max(np.abs(w - w_ref)):.3g} tol {tol:.3g}")
     state = new_state
